@@ -195,12 +195,12 @@ theorem snapshot_fails_marker_list_unloadable :
     datasetWF [(0, [⟨[110], .list [marker, [97]], none⟩, ⟨[111], .str [118], none⟩])] = true ∧
     ∀ fix : Fix, decSnapshot fix
         (encSnapshot [48, 46, 49, 46, 48] [(0, [⟨[110], .list [marker, [97]], none⟩, ⟨[111], .str [118], none⟩])] 1000) 2000 =
-      .error (.shortString 8448) := by
+      .error (.shortString 8448 13) := by
   refine ⟨by decide, ?_⟩
   intro fix
   have h : decSnapshotT fix
       (encSnapshot [48, 46, 49, 46, 48] [(0, [⟨[110], .list [marker, [97]], none⟩, ⟨[111], .str [118], none⟩])] 1000) 2000 =
-      .err (.shortString 8448) [9, 5, 5, 1, 1, 25, 8448] := by
+      .err (.shortString 8448 13) [9, 5, 5, 1, 1, 25] := by
     obtain ⟨a, b⟩ := fix
     cases a <;> cases b <;> decide
   unfold decSnapshot
@@ -235,8 +235,8 @@ theorem snapshot_allocs (fix : Fix) (ver : Bytes) (d : Dataset) (t t' : Nat)
 /-- witness for C10: a length field is turned into an allocation before any byte of the string is
     read — 15 bytes make the loader allocate 4 294 967 295 bytes. -/
 theorem alloc_from_length_field_unbounded :
-    decSnapshotT Fix.code (header ++ [250, 128, 255, 255, 255, 255]) 0 =
-      .err (.shortString 4294967295) [4294967295] := by decide
+    decSnapshotT Fix.code (header ++ [250, 128, 255, 255, 255, 255]) 0 = .err (.shortString 4294967295 0) [] ∧
+    allocTrace Fix.code (header ++ [250, 128, 255, 255, 255, 255]) 0 = [4294967295] := by decide
 
 /-! ### Non-vacuity: a dataset with all six types, two databases, TTLs on both sides of the downtime -/
 
